@@ -82,7 +82,8 @@ Step(op) ==
 \* the body falls off its end: __exit__(None, None, None)
 End == /\ ~done /\ done' = TRUE
        /\ propagates' = IF reraise THEN (IF saved = 0 THEN 4 ELSE saved) ELSE 0
-       /\ UNCHANGED <<prog, flag0, reraise, saved, logged, direct>>
+       /\ saved' = IF reraise THEN 0 ELSE saved          \* __exit__ re-raises through force_reraise, which lets go of it
+       /\ UNCHANGED <<prog, flag0, reraise, logged, direct>>
 
 Next == (\E op \in Ops : Step(op)) \/ End
 Spec == Init /\ [][Next]_vars
@@ -105,7 +106,9 @@ LoggedAtMostOnce == logged <= 1
 -----------------------------------------------------------------------------
 (* exception_filter, remove_path_on_error, raise_with_cause as decision tables *)
 FilterCases == {[usage |-> u, pred |-> p, body |-> b] :
-                   u \in {"context", "decorated", "bound_method", "call_in_handler", "call_other_exc"},
+                   \* bound_method_of_copy: the filter of a second object, a copy made after the first object's filter had been
+                   \* used and whose predicate answers the opposite: the predicate consulted is the one of the object at hand
+                   u \in {"context", "decorated", "bound_method", "bound_method_of_copy", "call_in_handler", "call_other_exc"},
                    p \in {"True", "False", "truthy", "None", "zero"},
                    b \in {"ok", "raises", "raises_base"}}        \* raises_base: a BaseException that is not an Exception
 FilterRef(cs) ==
